@@ -50,6 +50,10 @@ def rand_dep(rng, ids_):
         return copy.deepcopy(FILE_DEP3)
     d = {"k": "dep", "name": rng.choice(["da", "db", "dc"]), "version": rng.choice(["1.0", "1.9", "1.10"])}
     if rng.random() < 0.15:
+        d["sub"] = True            # a user subclass of HTMLDependency
+    if rng.random() < 0.15:
+        d["version_object"] = True  # version given as a packaging Version object
+    if rng.random() < 0.15:
         # a directory source written with an explicit package=None (the directory need not exist for rendering)
         d["source"] = {"package": None, "subdir": "static/lib"}
         d["script"] = [{"src": "p.js"}]
@@ -81,7 +85,8 @@ def rand_node(rng, ids_, depth, allow_tf=True):
     if k == "tag":
         return gen.TAG(rng.choice(lg.BLOCKS + lg.INLINES + ["br", "script"]) if rng.random() < 0.9 else rng.choice(["head", "body"]),
                        *[rand_node(rng, ids_, depth - 1, allow_tf) for _ in range(rng.choice([0, 1, 2, 3, 4]))],
-                       ws=rng.random() < 0.5, via_fn=False, how=rng.choice(gen.HOWS), attrs=gen.rand_attrs(rng, 3, hostile=rng.random() < 0.3))
+                       ws=rng.random() < 0.5, via_fn=False, how=rng.choice(gen.HOWS), attrs=gen.rand_attrs(rng, 3, hostile=rng.random() < 0.3),
+                       **({"subclass": True} if rng.random() < 0.08 else {}))
     if k == "text":
         return {"k": "text", "s": ids_.next("t") + rng.choice(["", " <&>", "\n"])}
     if k == "html":
@@ -91,7 +96,7 @@ def rand_node(rng, ids_, depth, allow_tf=True):
     if k == "dep":
         return rand_dep(rng, ids_)
     if k == "meta":
-        return {"k": "meta"}
+        return {"k": "meta", "sub": True} if rng.random() < 0.3 else {"k": "meta"}
     if k == "headc":
         return {"k": "headc", "c": [gen.TAG("title", {"k": "text", "s": "hc%d" % rng.randint(1, 3)})]}
     if k == "list":
@@ -170,6 +175,9 @@ def ops_for(kind, scratch):
         "save_html": lambda o: save(o),
         "save_html(libdir=None)": lambda o: save(o, libdir=None, include_version=False),
         "eq_self": lambda o: (o == o, o == copy.copy(o)),
+        "deepcopy_renders_same": lambda o: _same_rendering(o, copy.deepcopy(o)),
+        "pickle_renders_same": lambda o: _pickle_same(o),
+        "len_iter_bool": lambda o: (len(o.children if isinstance(o, ht.Tag) else o), bool(o), [type(c).__name__ for c in (o.children if isinstance(o, ht.Tag) else o)]),
         "document": lambda o: ht.HTMLDocument(o).render(),
     }
     if kind in ("tag", "list"):
@@ -200,6 +208,29 @@ def ops_for(kind, scratch):
         "in_tree_render": lambda o: ht.div(o, "x").render(),
         "in_doc_render": lambda o: ht.HTMLDocument(ht.div(o)).render(),
     }
+
+
+class ProtocolBroken(Exception):
+    pass
+
+
+def _same_rendering(a, b):
+    ra, rb = a.render(), b.render()
+    if ra["html"] != rb["html"] or [(d.name, str(d.version)) for d in ra["dependencies"]] != [(d.name, str(d.version)) for d in rb["dependencies"]]:
+        raise ProtocolBroken("a deep copy renders differently from its original")
+    if type(a) is not type(b):
+        raise ProtocolBroken("a deep copy has another type (%s) than its original (%s)" % (type(b).__name__, type(a).__name__))
+    return True
+
+
+def _pickle_same(o):
+    import pickle
+
+    try:
+        b = pickle.loads(pickle.dumps(o))
+    except Exception:
+        return "not picklable (harness doubles with local state)"
+    return _same_rendering(o, b)
 
 
 class WrongSource(Exception):
@@ -367,6 +398,9 @@ def run_history(ctx, h, scratch):
             res = ops[name](obj)
         except WrongSource as e:
             ctx.violation("result-depends-on-other-objects", str(e), dict(wit, op=name))
+            return False
+        except ProtocolBroken as e:
+            ctx.violation("copy-protocol-changes-rendering", str(e), dict(wit, op=name))
             return False
         except Exception as e:
             ctx.violation("read-only-op-raises", "%s raised %r" % (name, e), dict(wit, op=name))
